@@ -36,6 +36,7 @@ class StepRecord:
     __slots__ = (
         "i", "step", "pre", "post", "ret", "exc", "exc_type", "exc_frame", "exc_msg", "draws",
         "handlers", "contraction", "world", "cache", "user_arrays", "op_obj", "ctx_calls", "ctx_held", "user_list_before",
+        "key_reused",
     )
 
     def __init__(self):
@@ -232,6 +233,12 @@ class Runner:
             signal.signal(signal.SIGALRM, old)
             rec.handlers = instrument.handlers_end()
             rec.draws = instrument.SAMPLER.end()
+        # keys of this call's draws that an EARLIER call of this program already used (re-seeding starts afresh)
+        seen = self.__dict__.setdefault("_keys_seen", set())
+        if step.get("k") == "config" and "seed" in step:
+            seen.clear()
+        rec.key_reused = [d for d in (rec.draws or []) if d.get("key") is not None and d["key"] in seen]
+        seen.update(d["key"] for d in (rec.draws or []) if d.get("key") is not None)
         rec.post = snapshot(self.world)
         self.records.append(rec)
         return rec
